@@ -189,6 +189,11 @@ int OSSL::byteString2oid(const ByteString& byteString)
 		/* The final PKCS#11 3.0 expects curve name encoded as PrintableString */
 		curve_name = d2i_ASN1_PRINTABLESTRING(NULL, &p, byteString.size());
 
+		if (curve_name == NULL)
+		{
+			return NID_undef;
+		}
+
 		if (strcmp((char *)curve_name->data, "edwards25519") == 0)
 		{
 			return EVP_PKEY_ED25519;
